@@ -8,6 +8,67 @@ import Gimli.Lemmas.Package
 (abbreviation code, tag, one attribute per specification with the value the form denotes), each
 at its pool offset, and stops at the terminating 0.
 -/
+namespace Gimli.C17
+open Gimli Gimli.Leb
+
+/-! ### the 16-bit LEB128 reader reads back what the writer emits -/
+
+theorem ofNat_toNat (n : Nat) (h : n < 256) : (UInt8.ofNat n).toNat = n := by
+  simp [Nat.mod_eq_of_lt h]
+
+theorem encodeUFuel_more (f v : Nat) (h : v / 128 ≠ 0) :
+    encodeUFuel (f + 1) v = UInt8.ofNat (v % 128 + 128) :: encodeUFuel f (v / 128) := by
+  rw [encodeUFuel]; simp only [h, ne_eq, not_false_eq_true, if_true]
+
+theorem encodeUFuel_last (f v : Nat) (h : v / 128 = 0) :
+    encodeUFuel (f + 1) v = [UInt8.ofNat (v % 128)] := by
+  rw [encodeUFuel]; simp only [h, ne_eq, not_true_eq_false, if_false]
+
+theorem or_low7 (a b : Nat) (hb : b < 128) : b ||| (a <<< 7) = a * 128 + b := by
+  have := Nat.shiftLeft_add_eq_or_of_lt (a := a) (b := b) (i := 7) (by omega)
+  rw [Nat.or_comm, ← this, Nat.shiftLeft_eq]
+
+theorem u16_roundtrip (v : Nat) (hv : v < 2 ^ 16) (rest : Bytes) :
+    u16 (encodeU v ++ rest) = .ok (v, rest) := by
+  by_cases h1 : v < 128
+  · have he : encodeU v = [UInt8.ofNat v] := by
+      rw [encodeU, encodeUFuel_last 9 v (by omega), Nat.mod_eq_of_lt h1]
+    rw [he]
+    simp only [List.cons_append, List.nil_append, u16]
+    rw [ofNat_toNat v (by omega), if_pos h1]
+  · by_cases h2 : v < 16384
+    · have he : encodeU v = [UInt8.ofNat (v % 128 + 128), UInt8.ofNat (v / 128)] := by
+        rw [encodeU, encodeUFuel_more 9 v (by omega), encodeUFuel_last 8 (v / 128) (by omega),
+          Nat.mod_eq_of_lt (a := v / 128) (b := 128) (by omega)]
+      rw [he]
+      simp only [List.cons_append, List.nil_append, u16]
+      rw [ofNat_toNat (v % 128 + 128) (by omega), ofNat_toNat (v / 128) (by omega)]
+      rw [if_neg (by omega), if_pos (by omega)]
+      have e1 : (v % 128 + 128) % 128 = v % 128 := by omega
+      have e2 : v / 128 % 128 = v / 128 := by omega
+      have e3 : (v / 128) <<< 7 % 2 ^ 16 = (v / 128) <<< 7 := by
+        rw [Nat.shiftLeft_eq]; exact Nat.mod_eq_of_lt (by omega)
+      rw [e1, e2, e3, or_low7 (v / 128) (v % 128) (by omega)]
+      congr 2; omega
+    · have he : encodeU v = [UInt8.ofNat (v % 128 + 128), UInt8.ofNat (v / 128 % 128 + 128), UInt8.ofNat (v / 128 / 128)] := by
+        rw [encodeU, encodeUFuel_more 9 v (by omega), encodeUFuel_more 8 (v / 128) (by omega),
+          encodeUFuel_last 7 (v / 128 / 128) (by omega),
+          Nat.mod_eq_of_lt (a := v / 128 / 128) (b := 128) (by omega)]
+      rw [he]
+      simp only [List.cons_append, List.nil_append, u16]
+      rw [ofNat_toNat (v % 128 + 128) (by omega), ofNat_toNat (v / 128 % 128 + 128) (by omega),
+        ofNat_toNat (v / 128 / 128) (by omega)]
+      rw [if_neg (by omega), if_neg (by omega), if_neg (by omega)]
+      have e1 : (v % 128 + 128) % 128 = v % 128 := by omega
+      have e2 : (v / 128 % 128 + 128) % 128 = v / 128 % 128 := by omega
+      have e3 : (v / 128 % 128) <<< 7 % 2 ^ 16 = (v / 128 % 128) <<< 7 := by
+        rw [Nat.shiftLeft_eq]; exact Nat.mod_eq_of_lt (by omega)
+      have e4 : (v / 128 / 128) <<< 14 % 2 ^ 16 = v / 128 / 128 * 16384 := by
+        rw [Nat.shiftLeft_eq]; exact Nat.mod_eq_of_lt (by omega)
+      rw [e1, e2, e3, e4, or_low7 (v / 128 % 128) (v % 128) (by omega)]
+      congr 2; omega
+end Gimli.C17
+
 namespace Gimli.Names
 open Gimli Gimli.Ints
 open Gimli.Aranges (Item)
@@ -233,4 +294,106 @@ theorem nameEntries_series (e : Endian) (ix : Index) (offsets : List Nat) (i : N
     rw [List.length_append]; simp; omega)]
   congr 1
   simp
+/-! ### abbreviation table -/
+
+def encSpec (p : Nat × Nat) : Bytes := Leb.encodeU p.1 ++ Leb.encodeU p.2
+def encSpecs (specs : List (Nat × Nat)) : Bytes := specs.flatMap encSpec ++ [0, 0]
+def encAbbrev (a : Abbrev) : Bytes := Leb.encodeU a.code ++ Leb.encodeU a.tag ++ encSpecs a.attrs
+def encAbbrevs (abbrevs : List Abbrev) : Bytes := abbrevs.flatMap encAbbrev
+
+structure Abbrev.Ok (a : Abbrev) : Prop where
+  code_ne : a.code ≠ 0
+  code_lt : a.code < 2 ^ 64
+  tag_ne : a.tag ≠ 0
+  tag_lt : a.tag < 2 ^ 16
+  attrs : ∀ p, p ∈ a.attrs → p.1 ≠ 0 ∧ p.2 ≠ 0 ∧ p.1 < 2 ^ 16 ∧ p.2 < 2 ^ 16
+
+theorem u16_zero (rest : Bytes) : Leb.u16 (0 :: rest) = .ok (0, rest) := by simp [Leb.u16]
+
+theorem encodeU_length_pos (v : Nat) : 1 ≤ (Leb.encodeU v).length := by
+  unfold Leb.encodeU
+  rw [Leb.encodeUFuel]
+  split <;> simp
+
+theorem parseAttrSpecs_enc (specs : List (Nat × Nat)) (rest : Bytes) (fuel : Nat)
+    (h : ∀ p, p ∈ specs → p.1 ≠ 0 ∧ p.2 ≠ 0 ∧ p.1 < 2 ^ 16 ∧ p.2 < 2 ^ 16) (hf : specs.length < fuel) :
+    parseAttrSpecs fuel (encSpecs specs ++ rest) = .ok (specs, rest) := by
+  induction specs generalizing fuel with
+  | nil =>
+    cases fuel with
+    | zero => simp at hf
+    | succ f =>
+      simp only [encSpecs, List.flatMap_nil, List.nil_append, List.cons_append, parseAttrSpecs]
+      rw [u16_zero]
+      simp only [Out.bind_ok]
+      rw [u16_zero]
+      simp
+  | cons p specs ih =>
+    cases fuel with
+    | zero => simp at hf
+    | succ f =>
+      obtain ⟨hn, hfm, hnl, hfl⟩ := h p (by simp)
+      have hsplit : encSpecs (p :: specs) ++ rest =
+          Leb.encodeU p.1 ++ (Leb.encodeU p.2 ++ (encSpecs specs ++ rest)) := by
+        simp [encSpecs, encSpec, List.append_assoc]
+      rw [hsplit, parseAttrSpecs, C17.u16_roundtrip p.1 hnl]
+      simp only [Out.bind_ok]
+      rw [C17.u16_roundtrip p.2 hfl]
+      simp only [Out.bind_ok, hn, hfm, false_and, if_false]
+      rw [ih f (fun q hq => h q (by simp [hq])) (by simpa using hf)]
+      rfl
+
+theorem encSpecs_length (specs : List (Nat × Nat)) : specs.length < (encSpecs specs).length := by
+  induction specs with
+  | nil => simp [encSpecs]
+  | cons p specs ih =>
+    have := encodeU_length_pos p.1
+    simp only [encSpecs, List.flatMap_cons, encSpec, List.length_append, List.length_cons] at ih ⊢
+    omega
+
+/-- **the abbreviation table parses back to the abbreviations it encodes**, with or without the
+terminating 0 -/
+theorem parseAbbrevs_enc (abbrevs : List Abbrev) (h : ∀ a, a ∈ abbrevs → a.Ok)
+    (tail : Bytes) (htail : tail = [] ∨ ∃ junk, tail = 0 :: junk) (fuel : Nat)
+    (hf : abbrevs.length < fuel) :
+    parseAbbrevs fuel (encAbbrevs abbrevs ++ tail) = .ok abbrevs := by
+  induction abbrevs generalizing fuel with
+  | nil =>
+    cases fuel with
+    | zero => simp at hf
+    | succ f =>
+      simp only [encAbbrevs, List.flatMap_nil, List.nil_append]
+      rcases htail with rfl | ⟨junk, rfl⟩
+      · simp [parseAbbrevs]
+      · rw [parseAbbrevs]
+        simp only [List.isEmpty_cons, Bool.false_eq_true, if_false]
+        have : Leb.unsigned (0 :: junk) = .ok (0, junk) := by simp [Leb.unsigned]
+        rw [this]
+        simp
+  | cons a abbrevs ih =>
+    cases fuel with
+    | zero => simp at hf
+    | succ f =>
+      have ha := h a (by simp)
+      have hsplit : encAbbrevs (a :: abbrevs) ++ tail =
+          Leb.encodeU a.code ++ (Leb.encodeU a.tag ++ (encSpecs a.attrs ++ (encAbbrevs abbrevs ++ tail))) := by
+        simp [encAbbrevs, encAbbrev, List.append_assoc]
+      rw [hsplit, parseAbbrevs]
+      have hne : (Leb.encodeU a.code ++ (Leb.encodeU a.tag ++ (encSpecs a.attrs ++ (encAbbrevs abbrevs ++ tail)))).isEmpty = false := by
+        have := encodeU_length_pos a.code
+        cases hc : Leb.encodeU a.code with
+        | nil => rw [hc] at this; simp at this
+        | cons x t => rfl
+      rw [hne]
+      simp only [Bool.false_eq_true, if_false]
+      rw [Leb.unsigned_roundtrip a.code ha.code_lt]
+      simp only [Out.bind_ok, ha.code_ne, if_false]
+      rw [C17.u16_roundtrip a.tag ha.tag_lt]
+      simp only [Out.bind_ok, ha.tag_ne, if_false]
+      rw [parseAttrSpecs_enc a.attrs _ _ ha.attrs (by
+        have := encSpecs_length a.attrs
+        rw [List.length_append]; omega)]
+      simp only [Out.bind_ok]
+      rw [ih (fun b hb => h b (by simp [hb])) f (by simpa using hf)]
+      rfl
 end Gimli.Names
